@@ -234,6 +234,37 @@ pub fn expiry_zone_child() {
 pub fn run_c06(r: &mut Report) {
     use in_toto::models::LayoutMetadata;
     let o1 = key(1);
+    // expiry is an INSTANT, not a second: a layout that expired a few hundred milliseconds ago - earlier within the same wall-clock
+    // second - is expired, root and delegated, with the instant set on the value and read from a document with fractional seconds
+    {
+        use chrono::{Duration, Timelike, Utc};
+        let mut bad: Vec<String> = vec![]; let mut n = 0;
+        for delegated in [false, true] { for via_document in [false, true] { for ms_ago in [150i64, 400] {
+            // wait for a moment late enough in its second that `ms_ago` earlier is still the same second
+            let mut guard = 0;
+            loop { let sub = Utc::now().nanosecond() / 1_000_000; if (sub as i64) >= ms_ago + 120 && sub < 900 { break; } std::thread::sleep(std::time::Duration::from_millis(20)); guard += 1; if guard > 200 { break; } }
+            let t = Utc::now() - Duration::milliseconds(ms_ago);
+            let d = tmpdir();
+            let ka = key(2);
+            let far = Utc::now() + Duration::days(30);
+            let mut inner = layout(vec![], vec![], &[], 30); inner.expires = if delegated { t } else { far };
+            let mut outer = if delegated { layout(vec![step("a", 1, &[&ka], allow_all(), allow_all())], vec![], &[&ka], 30) } else { layout(vec![], vec![], &[], 30) };
+            outer.expires = if delegated { far } else { t };
+            // through a document that spells the instant with its fractional second and a UTC offset
+            let read = |l: in_toto::models::LayoutMetadata| -> in_toto::models::LayoutMetadata { if !via_document { return l; }
+                let mut v = serde_json::to_value(&l).unwrap();
+                v["expires"] = json!(l.expires.with_timezone(&chrono::FixedOffset::east_opt(19800).unwrap()).to_rfc3339_opts(chrono::SecondsFormat::Millis, false));
+                serde_json::from_str(&v.to_string()).expect("a layout with a fractional-second expiry parses") };
+            let (inner, outer) = (read(inner), read(outer));
+            let same_second = t.timestamp() == Utc::now().timestamp();
+            if delegated { write_link(d.path(), "a", ka.key_id(), &signed_layout(&inner, &[&ka])); }
+            let lay = signed_layout(&outer, &[&o1]);
+            let res = no_panic(|| in_toto_verify(&lay, owner_keys(&[&o1]), d.path().to_str().unwrap(), None).is_ok());
+            n += 1;
+            if res != Ok(false) && bad.len() < 6 { bad.push(format!("expired {} ms ago (same wall-clock second: {}), delegated {}: {:?}", ms_ago, same_second, delegated, res)); }
+        } } }
+        r.case("expired-earlier-within-the-same-second", json!({"inputs": n}), "Err", format!("{:?}", bad), bad.is_empty());
+    }
     // the verifier's local time zone has no say: the same grid in child processes started under zones east and west of UTC
     for tz in ["UTC0", "JST-9", "EST5", "<+14>-14", "<-12>12", "NPT-5:45", "Asia/Tokyo", "America/Los_Angeles"] {
         let out = std::process::Command::new(std::env::current_exe().unwrap()).arg("_EXPIRY_ZONES").env("TZ", tz).output();
